@@ -323,3 +323,25 @@ def tla_value(text):
     return w
 
   return parse()
+
+
+def validate_trace_parallel(module, cfg, records, name, jobs=12, chunk=None, **kw):
+  """Splits the records into chunks validated by concurrent TLC processes (each -workers 1).
+
+  Only for trace specifications whose records are independent of each other.
+  Returns (consumed, failures, list of TlcResult).
+  """
+  from concurrent.futures import ThreadPoolExecutor
+  if not records:
+    return 0, [], []
+  if chunk is None:
+    chunk = max(1, (len(records) + jobs - 1) // jobs)
+  parts = [records[i:i + chunk] for i in range(0, len(records), chunk)]
+  def one(ip):
+    i, part = ip
+    return validate_trace(module, cfg, part, '%s-%d' % (name, i), **kw)
+  with ThreadPoolExecutor(max_workers=jobs) as ex:
+    results = list(ex.map(one, enumerate(parts)))
+  consumed = sum(r[0] for r in results)
+  fails = [f for r in results for f in r[1]]
+  return consumed, fails, [r[2] for r in results]
